@@ -15,7 +15,7 @@ from .execu import Exec, Frame, parse_annotation, loop_fingerprint, assigned_nam
 from .bufs import Buf, BufRef, BufView, BufCopy, FIELD
 from .flat import FlatView
 
-BUILTINS = {'round', 'array', 'nonzero', 'slice', 'transpose', 'split', 'full_like', 'solve', 'arange', 'atleast_1d', 'len', 'range', 'enumerate', 'min', 'max', 'abs', 'int', 'float', 'bool', 'empty', 'ndarray', 'zeros', 'ones',
+BUILTINS = {'round', 'array', 'nonzero', 'slice', 'transpose', 'split', 'full_like', 'solve', 'arange', 'atleast_1d', 'len', 'range', 'enumerate', 'min', 'max', 'abs', 'int', 'float', 'bool', 'empty', 'ndarray', 'outer', 'zeros', 'ones',
             'empty_like', 'zeros_like', 'sum', 'tuple', 'list', 'isinstance', 'print', 'zip', 'floor', 'sqrt',
             'exp', 'tanh', 'cosh', 'cos', 'sin', 'RuntimeError', 'ValueError', 'AssertionError', 'NotImplementedError',
             'str', 'reversed', 'sorted', 'all', 'any', 'prod', 'pi', 'mod', 'fabs', 'log', 'dict', 'set'}
@@ -55,6 +55,8 @@ class Engine(Exec):
                 return a
             if f.name == 'reshape':
                 shp = args[0] if len(args) == 1 else list(args)
+                if type(f.ref) is ExprArr and not getattr(self.ctx, 'flat_mode', False):
+                    return self.expr_reshape(st, fr, f.ref, shp, node)
                 return self.flat_reshape(st, fr, f.ref, shp, node)
             if f.name == 'transpose':
                 order = args[0] if len(args) == 1 and isinstance(args[0], (list, tuple)) else list(args)
@@ -64,6 +66,46 @@ class Engine(Exec):
         if f.kind in ('repo', 'method', 'param', 'class'):
             return self.call_function(f, args, kwargs, st, fr, node)
         raise OutOfReach('call kind ' + f.kind)
+
+    def expr_reshape(self, st, fr, v, shape, node):
+        """reshape of a temporary array expression (a new array in numpy): exact C-order semantics.  Unit extents do not change
+        the C order and are removed on both sides; the remaining extents are compared syntactically: identical -> same element
+        at the same reduced index; rank 2 otherwise -> element (j0, j1) is source element divmod(j0 * d1 + j1, m1)."""
+        shape = list(shape) if isinstance(shape, (list, tuple)) else [shape]
+        def total(xs):
+            t = 1
+            for x in xs:
+                t = binop('Mult', t, x)
+            return t
+        self.safety(st, fr, 'reshape_size', compare('Eq', total(v.shape), total(shape)), node)
+        keep_t = [k for k, x in enumerate(shape) if not (is_cint(x) and x == 1)]
+        keep_s = [k for k, x in enumerate(v.shape) if not (is_cint(x) and x == 1)]
+        if len(keep_t) != len(keep_s) or len(keep_t) > 2:
+            raise OutOfReach('reshape of an array expression between ranks %d and %d' % (len(keep_s), len(keep_t)))
+        def same(a, b):
+            if not is_sym(a) and not is_sym(b):
+                return a == b
+            return bool(z3.simplify(Z(a) - Z(b)).eq(z3.IntVal(0)))
+        ident = all(same(shape[a], v.shape[b]) for a, b in zip(keep_t, keep_s))
+        src_rank, fn = v.rank, v.fn
+        if ident:
+            def el(j):
+                src = [0] * src_rank
+                for a, b in zip(keep_t, keep_s):
+                    src[b] = j[a]
+                return fn(tuple(src))
+        else:
+            if len(keep_t) != 2:
+                raise OutOfReach('reshape of an array expression with different extents')
+            d1 = shape[keep_t[1]]
+            m1 = v.shape[keep_s[1]]
+            def el(j):
+                flat = binop('Add', binop('Mult', j[keep_t[0]], d1), j[keep_t[1]])
+                src = [0] * src_rank
+                src[keep_s[0]] = binop('FloorDiv', flat, m1)
+                src[keep_s[1]] = binop('Mod', flat, m1)
+                return fn(tuple(src))
+        return ExprArr(shape, el, v.elem)
 
     def call_pymethod(self, f, args, kwargs, st, fr, node):
         base, nm = f.ref, f.name
@@ -231,6 +273,13 @@ class Engine(Exec):
             frac = x - z3.ToReal(fl)
             half = z3.RealVal('1/2')
             return simp(z3.If(frac < half, fl, z3.If(frac > half, fl + 1, z3.If(fl % 2 == 0, fl, fl + 1))))
+        if name == 'outer':
+            a, b = args[0], args[1]
+            if not (self.is_arr(a) and self.is_arr(b) and a.rank == 1 and b.rank == 1):
+                raise OutOfReach('np.outer of non-vectors')
+            fa, fb = self.elem_fn(st, a), self.elem_fn(st, b)
+            return ExprArr([a.shape[0], b.shape[0]], lambda j, fa=fa, fb=fb: binop('Mult', fa((j[0],)), fb((j[1],))),
+                           REAL if REAL in (a.elem, b.elem) else a.elem)
         if name == 'floor':
             if self.is_arr(args[0]):
                 # np.floor of an array: entry by entry, float result
